@@ -6195,7 +6195,12 @@ impl QueryRouter {
             // keywords and quotes inside string literals). Only statements the parser
             // rejects are left to the splitter.
             if parser::parse(command).is_ok() {
-                return self.execute_parsed(command);
+                match self.execute_parsed(command) {
+                    // e.g. `c = -inf`: the splitter reads such literals with str::parse,
+                    // the statement path has no literal for them
+                    Err(RouterError::ParseError(_)) => {},
+                    other => return other,
+                }
             }
 
             let rest_after_from = &command[from_pos + 6..];
